@@ -8,6 +8,21 @@ HOOK_COMMITS = subprocess.run(
 
 # property -> (level, technique, level text, level note, design ref)
 CLAIMED = {
+ "C16": ("exploration",
+         "real-thread stress of CachedObjectStore/TieredCache with tiny tiers over write-once objects whose content is a PRF of the key; byte-for-byte oracle",
+         "Held on every read explored: 6 tier configurations (L1 100 B..64 KB, L2 none / 1 MB / 16 MB on a real foyer disk tier), object sizes 0 B..200 KB (larger than a tier), 1-16 concurrent readers issuing whole / ranged / conditional reads on hot and cold keys while new objects keep being written; returned bytes must equal PRF(key)[range]; reads of never-written keys must fail.",
+         "Write-once objects (the property's premise); thread interleavings are whatever the OS produces.",
+         "DESIGN.md section 3 C16"),
+ "C17": ("exploration",
+         "generated well-formed requests through the real entry points (axum router POST /api/v1/write, OtlpGrpcService::export, FlightIngestService::process_stream) -> real ingester -> flushed chunk compared row by row; structure-aware hostile mutations; worker processes with a per-case progress file so that a panic, a process death or a >10 s stall inside one body is the recorded outcome",
+         "Held on every request explored, apart from two recorded findings: remote-write (overlapping / disjoint label sets, missing metric name, value classes incl. +-0, 2^53+-, +-2^63, 2^64, 1e300, inf, NaN, subnormal; unknown fields), OTLP gauge / sum / histogram / summary with resource + point attributes and int/double points, Flight streams of 3 schemas; hostile: length varints := 0, 1, 2^31, 2^32-1, 2^63, 2^64-1, truncation, bit flips, concatenation, hostile unknown fields, random bytes, for all three protocols. Known findings (not repaired): OTLP ints above 2^53, labels named like reserved columns.",
+         "Timestamps representable in ns and within two hours per request; prost is the reference for 'truncated encoding'; the hang verdict uses a 10 s wall-clock stall where normal is < 1 ms per body.",
+         "DESIGN.md section 3 C17"),
+ "C19": ("exploration",
+         "random membership / health histories against the real NodeRegistry + ShardAssignment + DistributedWriteRouter in worker processes; logical step counter fed by the code's own trace events aborts and reports a route_write that exceeds 2*|nodes|+4 reassignments; registry re-read at return",
+         "Held on every route_write call explored: 3 strategies, 1-6 nodes of any type / status / load (94/95 boundary), drain, remove, re-register, heartbeats, real run_health_checks with aged heartbeats (interposed CLOCK_MONOTONIC), rebalance, 1-8 shard ids; termination within the step bound, returned node eligible in the registry at return, assignment table names the returned node, assignment moves only when the previous node was ineligible / gone or a rebalance ran.",
+         "'Bounded time' restated as at most 2*|nodes|+4 reassignment steps; single router, sequential histories.",
+         "DESIGN.md section 3 C19"),
  "C03": ("exploration",
          "deterministic request-granularity simulation of 1-2 real Compactors (own catalog clients => stale candidate lists) with request faults, process crashes (incl. the lease-renewal task) and clock jumps past the lease TTL; offline monitor over EVERY catalog version: row-id reachability, exactly-once at quiescence, level arithmetic",
          "Held on every scenario explored: datasets built through the real ingester (unique row ids), 1-2 compactors x 1-3 cycles interleaved at object-store-request (object-store backend) or catalog-call (in-memory backend) granularity, 0-2 injected faults before/after effect, crash of a compactor at a scheduled step with a fresh instance taking over, clock jumps of up to 900 s; every catalog version must reach every original row, the final state must hold each row once, merged chunk level = max(replaced)+1, every listed chunk readable.",
